@@ -62,6 +62,7 @@ func runC19(p *core.Prog, r *core.Report) {
 	c19R2(p, r)
 	c19R3(p, r)
 	c19R4(p, r)
+	c19R5(p, r)
 }
 
 func c19R1(p *core.Prog, r *core.Report) {
@@ -422,4 +423,78 @@ func c19R4(p *core.Prog, r *core.Report) {
 
 func reachesInstr(from ssa.Instruction, to ssa.Instruction) bool {
 	return core.Reach{}.FromInstr(from)[to]
+}
+
+// ---------------------------------------------------------------------------------------------
+// R5 one script's failure does not cancel the others
+
+func c19R5(p *core.Prog, r *core.Report) {
+	const rule = "C19.R5"
+	r.Rule(rule, "script isolation: where the runner hands scripts a context derived with a cancel function, no call of that cancel function is reachable from the failure edge of a script run (the context is shared by all scripts; cancelling it on one script's error aborts the others at their next binding)", 1)
+	process := p.Method("cmd/regbot", "rootOpts", "process")
+	if process == nil {
+		r.MissingAnchor(rule, "cmd/regbot.(*rootOpts).process")
+		return
+	}
+	isCtxDerive := func(f *types.Func) bool {
+		if f == nil || f.Pkg() == nil || f.Pkg().Path() != "context" {
+			return false
+		}
+		switch f.Name() {
+		case "WithCancel", "WithCancelCause", "WithTimeout", "WithDeadline", "WithTimeoutCause", "WithDeadlineCause":
+			return true
+		}
+		return false
+	}
+	n := 0
+	for _, fn := range pkgFuncs(p, "cmd/regbot") {
+		lab := labeler{}
+		for _, c := range core.CallsTo(fn, func(f *types.Func) bool { return f == process.Object() }) {
+			call, ok := c.(*ssa.Call)
+			if !ok {
+				continue
+			}
+			n++
+			label := lab.next("script run")
+			// context derivations the script's context comes from
+			var derive []*ssa.Call
+			for _, o := range core.Origins(core.CallArg(c, 1), core.SliceOpts{}) {
+				if o.Kind == core.OCall && isCtxDerive(o.Callee()) && (o.Res == 0 || o.Res == -1) {
+					derive = append(derive, o.Call)
+				}
+			}
+			if len(derive) == 0 {
+				r.Held(rule, p.FuncName(fn), label, p.Pos(c.Pos()), "the scripts' context is not derived with a cancel function in the runner")
+				continue
+			}
+			isCancel := func(v ssa.Value) bool {
+				for _, o := range core.Origins(v, core.SliceOpts{}) {
+					if o.Kind == core.OCall && o.Res == 1 {
+						for _, d := range derive {
+							if o.Call == d {
+								return true
+							}
+						}
+					}
+				}
+				return false
+			}
+			bad := ""
+			for _, e := range errEdgesOf(fn, call) {
+				for in := range (core.Reach{}).FromEdge(e[0], e[1]) {
+					if cc, isCall := in.(*ssa.Call); isCall && cc.Call.StaticCallee() == nil && !cc.Call.IsInvoke() && isCancel(cc.Call.Value) {
+						bad = p.Pos(cc.Pos())
+					}
+				}
+			}
+			if bad != "" {
+				r.Violated(rule, p.FuncName(fn), label, p.Pos(c.Pos()), "the cancel function of the context shared by the scripts is called at "+bad+" on the failure edge of this script run: the remaining and the concurrently running scripts are aborted")
+			} else {
+				r.Held(rule, p.FuncName(fn), label, p.Pos(c.Pos()), "no cancel of the shared context on the failure edge")
+			}
+		}
+	}
+	if n == 0 {
+		r.Undecided(rule, "cmd/regbot", "script runs", "", "no call of process found")
+	}
 }
